@@ -25,6 +25,25 @@ def decode_template(bs):
     return out
 
 
+def _path_truth(fn, res, path, k, fc, env):
+    """a condition that tests a bool local computed earlier on the same path (`let special = matches!(..); if special`)."""
+    l = None
+    want = None
+    if fc[0] == "ltruth":
+        l, want = fc[1], fc[2]
+    elif fc[0] == "truth":
+        pe = A.peel(fc[1])
+        if pe[0] == "phi" and len(pe) > 2:
+            l, want = pe[2], fc[2]
+    if l is None:
+        return None
+    try:
+        v = A.path_local_value(fn, res, path.blocks, path.fact_pos[k], l, env)
+    except A.Unevaluable:
+        return None
+    return bool(v) == bool(want)
+
+
 def writer_classes(prog):
     """{(octet, quoted): ('literal',) | ('bs', char) | ('ddd', [c1, c2, c3])} from serialise_octets"""
     fn = prog.fn(ZS + "serialise_octets")
@@ -46,10 +65,13 @@ def writer_classes(prog):
         for q in (False, True):
             env = {elem: v, "param2": q}
             hits = []
-            for facts, events, end in paths:
+            for path in paths:
+                facts, events, end = path
                 ok = True
-                for fc in facts:
+                for k_, fc in enumerate(facts):
                     h = A.fact_holds(fc, env)
+                    if h is None:
+                        h = _path_truth(fn, res, path, k_, fc, env)
                     if h is None:
                         if fc[0] == "ltruth":
                             # a bool local that is just `quoted` copied: resolve by expression
